@@ -320,6 +320,13 @@ fn families() -> Vec<Family> {
     fam!("[f64;2] rms window 2", [f64; 2], f64a(), || dasp_rms::Rms::<[f64; 2], Vec<[f64; 2]>>::new(Fixed::from(vec![[0.0f64; 2]; 2])));
     fam!("[i16;1] rms window 2", [i16; 1], i16a(), || dasp_rms::Rms::<[i16; 1], Vec<[f32; 1]>>::new(Fixed::from(vec![[0.0f32; 1]; 2])));
     fam!("[u8;2] rms window 3", [u8; 2], u8a(), || dasp_rms::Rms::<[u8; 2], Vec<[f32; 2]>>::new(Fixed::from(vec![[0.0f32; 2]; 3])));
+    // cancellation letters: a loud frame followed by ones whose squares the running sum absorbs;
+    // the detected value must stay finite and non-negative, and with it the envelope
+    let f32c = || vec![0.0f32, 1.0, 1e-5, -0.3, 1e-9];
+    let i16c = || vec![[0i16], [32767], [1], [-1], [100]];
+    fam!("f32 rms window 2 (cancellation letters)", f32, f32c(), || dasp_rms::Rms::<f32, Vec<f32>>::new(Fixed::from(vec![0.0f32; 2])));
+    fam!("f32 rms window 1 (cancellation letters)", f32, f32c(), || dasp_rms::Rms::<f32, Vec<f32>>::new(Fixed::from(vec![0.0f32; 1])));
+    fam!("[i16;1] rms window 2 (cancellation letters)", [i16; 1], i16c(), || dasp_rms::Rms::<[i16; 1], Vec<[f32; 1]>>::new(Fixed::from(vec![[0.0f32; 1]; 2])));
     v
 }
 
@@ -589,7 +596,7 @@ fn main() {
     ctx.add_evals(evals.load(Relaxed));
     ctx.set("exhaustive", json!(false));
     ctx.set("exhaustive_scope", json!("rectifiers: every value of the <=24-bit integer formats (thorough: <=32-bit and every f32), lattice above; follower: every history over the finite action alphabet to the stated depth"));
-    ctx.rule(&format!("rectifiers: full_wave / positive_half_wave / negative_half_wave (functions and Rectifier structs, bare samples and 3-channel frames) over every value of i8 u8 i16 u16 I24 U24 (thorough: i32 u32 too), lattice for wider formats, f32 patterns (thorough: all) and their f64 widening; oracle |signed amplitude| (the value whose negation is unrepresentable excluded) and clamp to the upper / lower side of equilibrium; follower: 17 detector families (peak x 3 rectifiers and RMS windows 1..3 over f32, [f64;2], [i16;1], [u8;2]) x attack, release in {{0,0.5,1,2.5,100,1e6}}^2 x every history of length {depth} over {{next(5 letters), set_attack(3), set_release(3)}}; per step from the OBSERVED previous output l and the detected value d (second instance of the real detect component): out == d + g(l-d) with g = exp(-1/t) (attack iff l<d) within 1 LSB / 4 ulp + 4 ulp(f32) of the gain, between l and d, == d when t = 0; constant input: the distance to the detected value never grows; soak probes: one deterministic history of 3000 (thorough 30000) steps per family; detect_envelope adaptor (incl. its setters) == direct detector, one pull per output; Detector::peak / peak_positive_half_wave / peak_negative_half_wave / peak_from_rectifier / rms == Detector::new over the same component for every (attack, release) pair, 3-frame input and setter position"));
+    ctx.rule(&format!("rectifiers: full_wave / positive_half_wave / negative_half_wave (functions and Rectifier structs, bare samples and 3-channel frames) over every value of i8 u8 i16 u16 I24 U24 (thorough: i32 u32 too), lattice for wider formats, f32 patterns (thorough: all) and their f64 widening; oracle |signed amplitude| (the value whose negation is unrepresentable excluded) and clamp to the upper / lower side of equilibrium; follower: 20 detector families (peak x 3 rectifiers and RMS windows 1..3 over f32, [f64;2], [i16;1], [u8;2], plus three RMS families over cancellation letters such as 1.0, 1e-5, 1e-9 / 32767, 1) x attack, release in {{0,0.5,1,2.5,100,1e6}}^2 x every history of length {depth} over {{next(5 letters), set_attack(3), set_release(3)}}; per step from the OBSERVED previous output l and the detected value d (second instance of the real detect component): out == d + g(l-d) with g = exp(-1/t) (attack iff l<d) within 1 LSB / 4 ulp + 4 ulp(f32) of the gain, between l and d, == d when t = 0; constant input: the distance to the detected value never grows; soak probes: one deterministic history of 3000 (thorough 30000) steps per family; detect_envelope adaptor (incl. its setters) == direct detector, one pull per output; Detector::peak / peak_positive_half_wave / peak_negative_half_wave / peak_from_rectifier / rms == Detector::new over the same component for every (attack, release) pair, 3-frame input and setter position"));
     ctx.sample(json!({"sys":"follow","family":"[u8;2] peak negative","atk":2.5,"rel":0.0,"actions":["next:2","attack:0","next:4","next:1"]}));
     ctx.sample(json!({"sys":"rect","fmt":"U24","v":"8388607"}));
     ctx.assume("integer input alphabets of the follower exclude the format's minimum: the follower negates the detected value and forms l - d, which is representable for every other amplitude");
